@@ -76,31 +76,74 @@ def lockstep(cfg, loop):
     nodes = list(body.walk())
     if loop.k == "ForStmt" and len(loop.c) == 4:
         nodes += list(loop.c[2].walk())
+    INT = ("int", "unsigned int", "long", "unsigned long", "short", "char", "std::size_t", "size_t", "long long", "unsigned long long")
     for m in nodes:
         if m.k in ("UnaryOperator", "CXXOperatorCallExpr") and m.op == "++" and m.c and m.c[0].strip().k == "DeclRefExpr" and m.i in cfg.pos:
-            incs.setdefault(key(m.c[0].strip()), []).append(m)
+            v = m.c[0].strip()
+            if (v.type or "").replace("const ", "").strip() in INT:
+                continue  # a counter, not an iterator over data
+            nearest = None
+            for a in m.ancestors():
+                if a.k in ("WhileStmt", "ForStmt", "DoStmt", "CXXForRangeStmt"):
+                    nearest = a
+                    break
+            if nearest is not loop:
+                continue  # belongs to a nested loop
+            incs.setdefault(key(v), []).append(m)
     problems = []
     cond = loop.c[1] if loop.k == "ForStmt" else loop.c[0]
     cond_ids = {x.i for x in cond.walk()}
-    first = None
-    for m in body.walk():
-        if m.i in cfg.pos:
-            first = m
-            break
-    if first is None or len(incs) < 2:
+    if len(incs) < 2:
         return problems, incs
-    fp = cfg.pos[first.i]
-    start = [(fp[0], fp[1] - 1)]
+    # start right after the loop test has been evaluated (its top-level node is evaluated last); the way out of the loop never
+    # comes back to the test, so only trips through the body are examined
+    top = cond.strip()
+    cand = [x for x in [top] + list(top.walk()) if x.i in cfg.pos]
+    if not cand:
+        return problems, incs
+    last = max(cand, key=lambda x: (cfg.pos[x.i][0] == cfg.pos[cand[0].i][0], cfg.pos[x.i][1]))
+    start = [cfg.pos[cand[0].i]] if cand[0] is top else [cfg.pos[last.i]]
+    cond_ids = {top.i} if top.i in cfg.pos else cond_ids
+    inside = {x.i for x in body.walk()} | {x.i for x in cond.walk()}
+    if loop.k == "ForStmt" and len(loop.c) == 4:
+        inside |= {x.i for x in loop.c[2].walk()}
     for it, lst in incs.items():
         ids = {x.i for x in lst}
-        # (a) no way round: from the start of the body back to the loop test without an increment of `it`
-        w = cfg.paths_avoiding(start, lambda x, ids=ids: x.i in ids, target_pred=lambda x: x.i in cond_ids, to_exit=False)
+        # (a) no way round: from the start of the body back to the loop test without an increment of `it` (paths that leave the
+        # loop are not trips through the body)
+        w = cfg.paths_avoiding(start, lambda x, ids=ids: x.i in ids or x.i not in inside, target_pred=lambda x: x.i in cond_ids, to_exit=False)
         if w is not None:
             problems.append("a path through the loop body does not advance %s" % it)
         # (b) not twice: from an increment to another increment of the same iterator without passing the loop test
         for x in lst:
-            w2 = cfg.paths_avoiding([cfg.pos[x.i]], lambda y: y.i in cond_ids, target_pred=lambda y, ids=ids: y.i in ids, to_exit=False)
+            w2 = cfg.paths_avoiding([cfg.pos[x.i]], lambda y: y.i in cond_ids or y.i not in inside, target_pred=lambda y, ids=ids: y.i in ids, to_exit=False)
             if w2 is not None:
                 problems.append("%s can be advanced twice in one iteration" % it)
                 break
     return problems, incs
+
+
+def lockstep_sweep(ctx, rule, fns, min_iters=2):
+    """one obligation per loop (in the given functions) that walks several iterators together: see lockstep()"""
+    from .cfg import CFG
+
+    n = 0
+    seen = set()
+    for f in fns:
+        if f.body is None or not f.cfg_raw or (f.file, f.line) in seen:
+            continue
+        seen.add((f.file, f.line))
+        cfg = None
+        k = 0
+        for lp in f.walk():
+            if lp.k not in ("WhileStmt", "ForStmt"):
+                continue
+            if cfg is None:
+                cfg = CFG(f)
+            problems, incs = lockstep(cfg, lp)
+            if len(incs) < min_iters:
+                continue
+            ctx.ob(rule, f.qn + "(" + f.sig[:30] + ")", "lockstep@%d" % k, not problems, "%s:%d" % (f.file, lp.line), "%d iterators advance exactly once per iteration on every path" % len(incs) if not problems else "; ".join(problems))
+            k += 1
+            n += 1
+    return n
